@@ -10,7 +10,8 @@ from pv.canon import B, Exc, T, Val, outcome, unB
 ID = "C13"
 COQ_REQUIRE = "C13.Run"
 SHARD = 40
-RULE = ("statm records of seven page counts (0 .. 2^52) x page size {real, 4096, 16384, 65536}; smaps listings of 0..25 mappings "
+RULE = ("5 live cases first (real smaps / smaps_rollup / statm of a helper with chosen mappings: printers vs real bytes, model = psutil on the snapshot, psutil over the real /proc); "
+        "statm records of seven page counts (0 .. 2^52) x page size {real, 4096, 16384, 65536}; smaps listings of 0..25 mappings "
         "drawn from a grammar (hex ranges, perms, 35 path shapes incl. blanks inside and at the end/colons/' (deleted)'/UTF-8/Unicode blanks/figure-like names, repeated "
         "paths, anonymous, deleted files whose marked name exists / is absent for an assortment of errnos (ENAMETOOLONG from real 246..255-byte names "
         "and > PATH_MAX paths, ELOOP, EIO, EOVERFLOW, ENOTDIR, ESTALE ... injected into os.stat) / is denied (EACCES, EPERM)), each with the ten figure lines in kernel order "
@@ -22,7 +23,8 @@ RULE = ("statm records of seven page counts (0 .. 2^52) x page size {real, 4096,
         "fake /proc/meminfo; names containing \\r \\x0b \\x0c \\x1c-\\x1f \\x85 U+0085 U+2028/9; plus a malformed stream (dropped, duplicated, "
         "truncated, foreign lines, empty VmFlags, missing figures, file errors, zombie/gone). Non-trivial = at least one mapping "
         "or a non-empty file; distinct = distinct canonical case hash.")
-TRUSTED = ["correspondence harness props/C13.py + pv/ (fake /proc tree; builtins.open fault injection; os.stat answers per errno for "
+TRUSTED = ["kernel printers k_smaps / k_rollup / k_statm of coq/C13/Spec.v: compared byte for byte with the running kernel's files of a helper process on every run (props/_c13_live.py)",
+           "correspondence harness props/C13.py + pv/ (fake /proc tree; builtins.open fault injection; os.stat answers per errno for "
            "path_exists_strict, or the real file system for over-long names; psutil._pslinux.PAGESIZE / HAS_PROC_SMAPS_ROLLUP / psutil._TOTAL_PHYMEM / psutil.virtual_memory set per case)",
            "formats of /proc/<pid>/statm, smaps, smaps_rollup transcribed from proc(5) and fs/proc/task_mmu.c in coq/C13/Spec.v",
            "CPython re engine agrees with the three hand-written scanners of coq/C13/Model.v (exercised on adversarial lines)"]
@@ -337,10 +339,41 @@ def _mutate(rng, ms):
     return data
 
 
+def _live_cases():
+    """Snapshots of REAL /proc files of the running kernel, parsed into the records Spec's printers take."""
+    from props import _c13_live as L
+    out = []
+    child = L.Child()
+    try:
+        smaps, rollup, statm = child.snapshot()
+        nl = [os.fsencode(child.files) + b"/n\\012l.bin"]
+        lit = os.fsencode(child.files) + b"/lit (deleted)"
+        ms = L.parse_smaps(smaps, newline_names=nl)
+        rl = L.parse_rollup(rollup)
+        bad = L.check_rollup_sums(ms, rl)
+        if bad:
+            raise RuntimeError("C13 live: the kernel's roll-up is not the (rounded) sum of its listing: " + "; ".join(bad))
+        out.append({"kind": "live", "cls": "live-snapshot", "pagesize": _page(), "ex": [_hexs(lit)], "ms": ms, "rollup": rl,
+                    "statm": L.parse_statm(statm), "real": [smaps.hex(), rollup.hex(), statm.hex()],
+                    "dir": _hexs(os.fsencode(child.files))})
+    finally:
+        child.close()
+    # statm / smaps_rollup of other real processes (this one, its parent, init): printers only need the text
+    for pid in [os.getpid(), os.getppid(), 1]:
+        try:
+            with open("/proc/%d/statm" % pid, "rb") as f:
+                statm = f.read()
+        except OSError:
+            continue
+        out.append({"kind": "live_statm", "cls": "live-statm", "pagesize": _page(), "statm": L.parse_statm(statm), "real": statm.hex()})
+    out.append({"kind": "live_direct", "cls": "live-direct"})
+    return out
+
+
 def gen_cases(rng, tier):
     n = {"quick": 26, "thorough": 600, "search": 100}[tier]
     HEAVY[0] = tier == "thorough"
-    cases = []
+    cases = [] if tier == "search" else _live_cases()
     # ---- statm
     for _ in range(n):
         cases.append({"kind": "statm", "cls": "statm", "pagesize": _pagesize(rng), "statm": _statm(rng)})
@@ -570,6 +603,13 @@ def coq_term(case):
         return "run_maps %s %s" % (_g_probe(case), G.lst([_g_mapping(m) for m in case["ms"]]))
     if k == "maps_raw":
         return "run_maps_raw %s %s %s %s" % (G.z(case["ps"]), _g_probe(case), G.z(RMODE_NUM[case["mode"]]), _hx(case["content"]))
+    if k == "live":
+        return "run_live %s %s %s %s %s" % (G.z(case["pagesize"]), _g_ex(case["ex"]), _g_rollup(case["rollup"]),
+                                            G.lst([_g_mapping(m) for m in case["ms"]]), _g_statm(case["statm"]))
+    if k == "live_statm":
+        return "run_statm %s %s" % (G.z(case["pagesize"]), _g_statm(case["statm"]))
+    if k == "live_direct":
+        return "JL []"
     if k == "percent_hist":
         ops = []
         for o in case["ops"]:
@@ -627,10 +667,27 @@ def coq_struct(case, raw):
         return {"model": raw[0], "spec": raw[1]}
     if k == "percent_hist":
         return {"printed": raw[:2], "model": raw[2], "spec": raw[3]}
+    if k == "live":
+        return {"printed": raw[:3], "model": raw[3], "spec": raw[4], "hyps": raw[5]}
+    if k == "live_statm":
+        return {"printed": raw[0], "model": raw[1], "spec": raw[2]}
+    if k == "live_direct":
+        return {"model": None, "spec": LIVE_EXPECT}
     raise ValueError(k)
 
 
 # ------------------------------------------------------------------ judging
+# what psutil must report about the helper's chosen mappings over the REAL /proc: (own name, perms, size in bytes / page size)
+def _live_expect():
+    from props import _c13_live as L
+    rows = [[B(name.replace(b"\n", b"\\012")), perms, pages] for name, perms, pages, _ in L.CHOSEN]
+    rows.append([B(L.MEMFD[0]), L.MEMFD[1], L.MEMFD[2]])
+    return Val(sorted(rows, key=lambda r: r[0]["b"]))
+
+
+LIVE_EXPECT = _live_expect()
+
+
 def finding_key(case, coq):
     # memory_maps-path-edge-blank was repaired by /repo commit c15178c, memory_maps-probe-permission by b718f0c:
     # no open finding class
@@ -670,6 +727,24 @@ def judge(case, coq, impl):
                 return Verdict("violation", "memory_maps(grouped=True) is not the per-path sum of the mappings")
         if impl != model:
             return Verdict("corr", "impl != model")
+        return Verdict("ok")
+    if k == "live":
+        spec, model = coq["spec"], coq["model"]
+        if spec is None:
+            # the running kernel's files must be inside the domain of the theorems: a spec problem, not a verdict
+            raise RuntimeError("C13 live: the real snapshot is outside the specification's domain "
+                               "(wf_kernel+statm, wf_rollup, consistent, rounded, uniform_figs) = %r" % (coq.get("hyps"),))
+        names = ["memory_full_info via smaps_rollup", "memory_full_info via smaps", "memory_maps(grouped=False)", "memory_maps(grouped=True)"]
+        for i, nm in enumerate(names):
+            a, b = (impl[i], spec[i]) if i < 3 else (_sorted_grouped(impl[i]), _sorted_grouped(spec[i]))
+            if a != b:
+                return Verdict("violation", "live kernel snapshot: %s differs from the kernel's accounting" % nm)
+        if impl != model:
+            return Verdict("corr", "impl != model on the live snapshot")
+        return Verdict("ok")
+    if k == "live_direct":
+        if impl != coq["spec"]:
+            return Verdict("violation", "over the real /proc, the chosen mappings of a real child are not reported as mapped")
         return Verdict("ok")
     if k == "percent_hist":
         spec, model = coq["spec"], coq["model"]
@@ -774,7 +849,71 @@ def _grouped_conv(rows):
     return out
 
 
+def _impl_live_direct(env):
+    """psutil over the REAL /proc of a real child whose mappings are known"""
+    import psutil
+    from psutil import _pslinux
+    from props import _c13_live as L
+    old = psutil.PROCFS_PATH
+    child = L.Child(base=env["work"])
+    try:
+        psutil.PROCFS_PATH = "/proc"
+        _pslinux.HAS_PROC_SMAPS_ROLLUP = True
+        p = psutil.Process(child.pid)
+        base = os.fsencode(child.files) + b"/"
+        page = _page()
+        want = {name.replace(b"\n", b"\\012") for name, _, _, _ in L.CHOSEN}
+
+        def conv(rows):
+            out = []
+            for r in rows:
+                b = os.fsencode(r.path)
+                if b.startswith(base) and b[len(base):] in want:
+                    out.append([B(b[len(base):]), r.perms, r.size // page])
+                elif b == L.MEMFD[0]:
+                    out.append([B(b), r.perms, r.size // page])
+            return sorted(out, key=lambda r: r[0]["b"])
+        res = outcome(lambda: p.memory_maps(grouped=False), conv)
+        # the three views agree with each other and with statm on the paused child
+        statm = [int(x) for x in child.read("statm").split()]
+        mi, mfi = p.memory_info(), p.memory_full_info()
+        rows = p.memory_maps(grouped=False)
+        grouped = p.memory_maps(grouped=True)
+        if (mi.rss, mi.vms, mi.shared) != (statm[1] * page, statm[0] * page, statm[2] * page):
+            return T("LiveMismatch", "memory_info vs statm", list(mi), statm)
+        if sum(r.rss for r in rows) != sum(g.rss for g in grouped) or sum(r.pss for r in rows) != sum(g.pss for g in grouped):
+            return T("LiveMismatch", "grouped rows do not add up to the ungrouped rows")
+        if mfi.uss != sum(r.private_clean + r.private_dirty for r in rows) or mfi.swap != sum(r.swap for r in rows):
+            return T("LiveMismatch", "uss / swap of memory_full_info vs the rows", list(mfi))
+        if not (0 <= mfi.pss - sum(r.pss for r in rows) < 1024 * max(1, len(rows))):
+            return T("LiveMismatch", "pss of memory_full_info vs the rows", mfi.pss, sum(r.pss for r in rows))
+        return res
+    finally:
+        psutil.PROCFS_PATH = old
+        child.close()
+
+
+def _check_printed(what, printed, real):
+    if printed != real:
+        pl, rl = printed.split(b"\n"), real.split(b"\n")
+        for i, (a, b) in enumerate(zip(pl, rl)):
+            if a != b:
+                raise RuntimeError("C13 live: %s line %d: the kernel prints %r, the specification's printer %r" % (what, i + 1, b, a))
+        raise RuntimeError("C13 live: %s: the kernel prints %d lines, the specification's printer %d" % (what, len(rl), len(pl)))
+
+
 def impl_run(case, coq, env):
+    if case["kind"] == "live_direct":
+        return _impl_live_direct(env)
+    if case["kind"] == "live":
+        for what, pr, real in zip(("smaps", "smaps_rollup", "statm"), coq["printed"], case["real"]):
+            _check_printed(what, unB(pr), bytes.fromhex(real))
+    if case["kind"] == "live_statm":
+        _check_printed("statm", unB(coq["printed"]), bytes.fromhex(case["real"]))
+    return _impl_run(case, coq, env)
+
+
+def _impl_run(case, coq, env):
     import builtins
     import psutil
     from psutil import _pslinux
@@ -792,8 +931,12 @@ def impl_run(case, coq, env):
     if ps == 2:
         os.remove(os.path.join(root, str(pid), "stat"))
     files = {}   # name -> (mode, content)
-    if k == "statm":
+    if k in ("statm", "live_statm"):
         files["statm"] = ("ok", unB(coq["printed"]))
+    elif k == "live":
+        files["smaps"] = ("ok", bytes.fromhex(case["real"][0]))
+        files["smaps_rollup"] = ("ok", bytes.fromhex(case["real"][1]))
+        files["statm"] = ("ok", bytes.fromhex(case["real"][2]))
     elif k == "statm_raw":
         files["statm"] = (case["mode"], bytes.fromhex(case["content"]))
     elif k in ("full", "percent"):
@@ -857,8 +1000,16 @@ def impl_run(case, coq, env):
             _pslinux.PAGESIZE = case["pagesize"]
         if "has_rollup" in case:
             _pslinux.HAS_PROC_SMAPS_ROLLUP = bool(case["has_rollup"])
-        if k in ("statm", "statm_raw"):
+        if k in ("statm", "statm_raw", "live_statm"):
             return outcome(p.memory_info, _mem_conv(PMEM))
+        if k == "live":
+            out = []
+            for flag in (True, False):
+                _pslinux.HAS_PROC_SMAPS_ROLLUP = flag
+                out.append(outcome(p.memory_full_info, _mem_conv(PFULL)))
+            out.append(outcome(lambda: p.memory_maps(grouped=False), _rows_conv))
+            out.append(outcome(lambda: p.memory_maps(grouped=True), _grouped_conv))
+            return out
         if k in ("full", "full_raw"):
             return outcome(p.memory_full_info, _mem_conv(PFULL))
         if k in ("maps", "maps_raw"):
